@@ -1,6 +1,7 @@
 package harness
 
 import (
+	"github.com/LemoFoundationLtd/lemochain-core/chain/params"
 	"fmt"
 	"math/big"
 	"sort"
@@ -322,16 +323,67 @@ func c02Scenario(c *Ctx) {
 		nm := 1 + c.Draw("gen", 3)
 		for m := 0; m < nm && !c.Failed(); m++ {
 			bz := wireCopyBlock(valid)
-			lab := w.mutate(bz, parent, now)
-			if lab == "" {
-				continue
-			}
-			if c.Draw("mut", 4) == 0 {
-				if l2 := w.mutate(bz, parent, now); l2 != "" {
-					lab += "+" + l2
+			lab := ""
+			if c.Draw("hostile", 6) == 5 {
+				// a deputy that runs the same miner code but feeds it hostile candidates: the block has
+				// consistent roots, so only the transaction rules stand between it and acceptance
+				var cands types.Transactions
+				for _, tx := range valid.Txs {
+					cands = append(cands, wireCopyTx(tx))
+				}
+				var sub *types.Transaction
+				boxExp := uint64(now + 1 + int64(c.Draw("hostile", 1800)))
+				kind := ""
+				switch c.Draw("hostile", 3) {
+				case 0:
+					sub = net.SignedTransfer(net.Founder, net.Users[0].Addr, big.NewInt(7), uint64(now+1801+int64(c.Draw("hostile", 1700))), fmt.Sprintf("c02-sub-outlives-window-%d", mutants))
+					kind = "box-sub-tx-lifetime-too-long"
+				case 1:
+					sub = net.SignedTransfer(net.Founder, net.Users[0].Addr, big.NewInt(7), uint64(now-1-int64(c.Draw("hostile", 100))), fmt.Sprintf("c02-sub-expired-%d", mutants))
+					kind = "box-sub-tx-expired"
+				default:
+					sub = net.SignedTransfer(net.Founder, net.Users[0].Addr, big.NewInt(7), uint64(now+1801+int64(c.Draw("hostile", 1700))), fmt.Sprintf("c02-sub-outlives-box-%d", mutants))
+					boxExp = uint64(now + 1 + int64(c.Draw("hostile", 60)))
+					kind = "box-sub-tx-outlives-box-and-window"
+				}
+				data, err := types.MarshalBoxData(types.Transactions{sub})
+				if err != nil {
+					panic(err)
+				}
+				box := signTx(types.NoReceiverTransaction(net.Founder.Addr, big.NewInt(0), 2000000, big.NewInt(1e9), data, params.BoxTx, net.P.ChainID, boxExp, "", fmt.Sprintf("c02-hostile-box-%d", mutants)), net.Founder)
+				hb, _, err := f.Mine(d, parent, uint32(now), append(cands, box), fmt.Sprintf("h%d.%d", r, m))
+				has := false
+				if err == nil && hb != nil {
+					for _, tx := range hb.Txs {
+						if tx.Hash() == box.Hash() {
+							has = true
+						}
+					}
+				}
+				if !has {
+					c.Probe("hostile_candidate_discarded_by_miner_code")
+					continue
+				}
+				c.Fault("remined_with_hostile_candidates")
+				bz = wireCopyBlock(hb)
+				lab = "remined-with-" + kind + "/signed-by-in-turn-deputy"
+			} else {
+				lab = w.mutate(bz, parent, now)
+				if lab == "" {
+					continue
+				}
+				if c.Draw("mut", 4) == 0 {
+					if l2 := w.mutate(bz, parent, now); l2 != "" {
+						lab += "+" + l2
+					}
 				}
 			}
-			switch c.Draw("mut", 5) {
+			resignMode := c.Draw("mut", 5)
+			if strings.HasPrefix(lab, "remined-") {
+				resignMode = -1 // already a consistent block signed by its miner
+			}
+			switch resignMode {
+			case -1:
 			case 0, 1:
 				lab += "/unsigned-change"
 			case 2:
@@ -400,11 +452,13 @@ func c02Scenario(c *Ctx) {
 				return
 			}
 			seen := map[common.Hash]bool{}
-			for _, tx := range bz.Txs {
+			for _, tx := range allTxs(bz) { // sub-transactions of boxes are executed too
 				if tx.Expiration() < uint64(bz.Time()) || tx.Expiration() > uint64(bz.Time())+1800 {
 					fail("tx-expiry", "transaction %q has expiration %d outside [block time %d, +30 min]", tx.Message(), tx.Expiration(), bz.Time())
 					return
 				}
+			}
+			for _, tx := range bz.Txs {
 				if seen[tx.Hash()] {
 					fail("tx-replay", "transaction %q appears twice in it", tx.Message())
 					return
